@@ -684,6 +684,10 @@ class Counter:
                             return 'expr:' + src(e)
                         return self._len_atom(x, st, at, depth + 1)
                 return 'expr:' + src(e)
+            gs = gen_summary(self, st.func, e)
+            if gs is not None and gs['b'] is not None and gs['src'] in gs['b']:
+                # a package generator that yields exactly once per element of one of its parameters
+                return self._len_atom(gs['b'][gs['src']], st, at, depth + 1)
             if n == 'zip' and e.args:
                 atoms = {self._len_atom(a, st, at, depth + 1) for a in e.args}
                 if len(atoms) == 1:
@@ -692,6 +696,10 @@ class Counter:
         if isinstance(e, ast.Call) and isinstance(e.func, ast.Attribute) and e.func.attr in ('values', 'keys', 'items') \
                 and not e.args:
             return 'len:' + self._len_atom(e.func.value, st, at, depth + 1)
+        if isinstance(e, ast.Call) and isinstance(e.func, ast.Attribute):
+            gs = gen_summary(self, st.func, e)
+            if gs is not None and gs['b'] is not None and gs['src'] in gs['b']:
+                return self._len_atom(gs['b'][gs['src']], st, at, depth + 1)
         if isinstance(e, (ast.ListComp, ast.GeneratorExp)) and len(e.generators) == 1:
             g = e.generators[0]
             if g.ifs:
@@ -758,6 +766,35 @@ class Counter:
                     break
             out[ev] = cur
         return out
+
+
+def gen_summary(counter, func: Func, call: ast.Call):
+    """`call` (inside func) is a call of a package generator of the form
+        def gen(.., src, ..):  for x in src: <straight-line / branching statements>; yield E      (one yield per round)
+    -> {'G': generator, 'loop': its for loop, 'yield': the Yield node, 'src': name of the iterated parameter,
+        'b': parameter -> argument of the call}; None for anything else (several yields, conditional yield, break ...)"""
+    G = counter.target_of(call, func)
+    if G is None:
+        return None
+    nodes = list(walk_no_nested(G.node))
+    ys = [n for n in nodes if isinstance(n, ast.Yield)]
+    if len(ys) != 1 or any(isinstance(n, (ast.YieldFrom, ast.Break, ast.Continue, ast.Return, ast.Try, ast.While)) for n in nodes):
+        return None
+    body = [b for b in G.body if not (isinstance(b, ast.Expr) and isinstance(b.value, ast.Constant))]
+    if len(body) != 1 or not isinstance(body[0], ast.For) or body[0].orelse:
+        return None
+    loop = body[0]
+    if not (isinstance(loop.iter, ast.Name) and loop.iter.id in G.params):
+        return None
+    fl = flow_of(G)
+    if any(d.kind != 'param' for d in fl.defs_of(loop.iter.id)):
+        return None
+    if not any(isinstance(s_, ast.Expr) and s_.value is ys[0] for s_ in loop.body):
+        return None          # the yield is nested in an if / inner loop: not once per round
+    if sum(1 for n in nodes if isinstance(n, (ast.For, ast.AsyncFor))) != 1:
+        return None
+    b = bind_args(call, G, drop_self=G.kind == 'method')
+    return {'G': G, 'loop': loop, 'yield': ys[0], 'src': loop.iter.id, 'b': b}
 
 
 def _rename(atom: str, ren: Dict[str, str]) -> str:
